@@ -14,7 +14,7 @@ ASSUMPTIONS = ["'accuracy of the ODE solver' = 5e-3 absolute on |H|^2 and |H| (R
                "the apodisation profile is the callable captured from the solver's arguments (authoritative over the docstring)",
                "noise-free inputs (FBG returns the filtered signal field only)"]
 TOLERANCES = {"ode_abs": 5e-3, "filter_rtol": 1e-9, "route_kL_L": 1e-6, "route_N": 2e-3}
-MIN_CHECKS = {"fbg.passive": 60, "fbg.applied": 60, "fbg.peak": 30, "fbg.uniform": 10, "fbg.routes": 10}
+MIN_CHECKS = {"fbg.passive": 60, "fbg.applied": 60, "fbg.peak": 30, "fbg.uniform": 10, "fbg.routes": 10}      # (none of them depends on the solve_ivp spy)
 SHARDS = {"quick": 4}
 ODE = 5e-3
 
@@ -63,6 +63,8 @@ def run_fbg(x, **kw):
 
     def rec(args, kwargs, result):
         a = kwargs.get("args")
+        if a is None or len(a) != 5:
+            return                       # the library no longer hands these over through args=: the spy is an optional cross-check only
         cap["delta"], cap["s"], cap["k"], cap["F"], cap["apo"] = a
         cap["t_span"] = kwargs.get("t_span")
         cap["sol"] = result
@@ -110,37 +112,41 @@ def w_grating(ctx, rng, i):
     e_in = np.sum(np.abs(x.signal) ** 2, axis=-1)
     e_out = np.sum(np.abs(out.signal) ** 2, axis=-1)
     ctx.check("fbg.energy", np.all(e_out <= e_in * (1 + ODE) ** 2), f"reflected energy exceeds the input energy: {e_out} > {e_in}")
-    if not cap:
-        ctx.not_observed("fbg.peak")
-    if cap:
-        # the detuning handed to the solver, against its definition: delta(f) = 2 pi neff (f - f_Bragg) L / c with L = kL lambda_D / (pi vdneff)
-        f_abs = T.gv.f0 + np.fft.fftshift(np.fft.fftfreq(n, 1 / fs))
-        Lg = kL * (c_light / fc) / (np.pi * vdneff)
-        dref = 2 * np.pi * neff * (f_abs - fc) / c_light * Lg
-        dgot = np.ravel(np.asarray(cap["delta"], float))
-        ctx.check("fbg.detuning", dgot.shape == dref.shape and np.max(np.abs(dgot - dref)) <= 1e-6 * max(np.max(np.abs(dref)), 1.0),
-                  f"detuning vector differs from 2 pi neff (f - f_Bragg) L / c (max dev {np.max(np.abs(dgot - dref)) if dgot.shape == dref.shape else 'shape'} of {np.max(np.abs(dref)):.3g}; Bragg frequency {m_off} bins from the carrier, n_pol={n_pol})")
-    if not cap:
-        pass
-    elif not chirped:
-        ic = n // 2 + m_off      # optical frequency fc: the Bragg frequency
-        apo_f = cap["apo"]
-        integral = 1.0 if apo_f is None else quad(lambda z: float(apo_f(z)), -0.5, 0.5, limit=200)[0]
-        if apo_name in NAMED_INTEGRALS:
-            # a built-in name must select its documented profile every time it is used (the docstring and the code disagree on
-            # 'rcos' — cos(pi z) vs cos(2 pi z) — so either is accepted there; the other three are unambiguous)
-            ctx.check("fbg.named_profile", any(abs(integral - v) <= 1e-6 for v in NAMED_INTEGRALS[apo_name]),
-                      f"apodization='{apo_name}' integrated a profile whose integral is {integral:.6g}; the documented profile has {NAMED_INTEGRALS[apo_name]}")
-        k_bragg = float(np.ravel(cap["k"])[ic])
-        ctx.check("fbg.coupling", abs(k_bragg - kL) <= 1e-6 * kL and np.all(np.ravel(cap["s"]) == 0) and abs(float(np.ravel(cap["delta"])[ic])) <= 1e-6, f"solver inputs at the Bragg frequency: k={k_bragg!r} (kL={kL!r}), delta={float(np.ravel(cap['delta'])[ic])!r}")
-        ctx.check("fbg.peak", abs(R2[ic] - np.tanh(kL * integral) ** 2) <= ODE, f"|H(f_Bragg)|^2 = {R2[ic]!r}, tanh^2(kL * integral of the apodisation = {integral:.6g}) = {np.tanh(kL * integral) ** 2!r} ({apo_name})")
-        if apo_f is None:
-            dl = np.ravel(cap["delta"]).astype(complex)
-            kk = np.ravel(cap["k"]).astype(complex)
+    # independent oracle (no dependence on how the library calls its ODE solver): detuning delta(f) = 2 pi neff (f - f_Bragg) L / c with
+    # L = kL lambda_D / (pi vdneff), coupling k(f) = kL f / f_Bragg, and the apodisation the caller asked for
+    f_abs = T.gv.f0 + np.fft.fftshift(np.fft.fftfreq(n, 1 / fs))
+    Lg = kL * (c_light / fc) / (np.pi * vdneff)
+    dref = 2 * np.pi * neff * (f_abs - fc) / c_light * Lg
+    kref = kL * f_abs / fc
+    ic = n // 2 + m_off                  # optical frequency fc: the Bragg frequency
+    if apo_name in NAMED_INTEGRALS:
+        integrals = NAMED_INTEGRALS[apo_name]      # documented profiles ('rcos': docstring and code disagree, either is accepted)
+    else:
+        integrals = [quad(lambda z: float(apo(z)), -0.5, 0.5, limit=200)[0]]
+    if not chirped:
+        ctx.check("fbg.peak", any(abs(R2[ic] - np.tanh(kL * v) ** 2) <= ODE for v in integrals),
+                  f"|H(f_Bragg)|^2 = {R2[ic]!r}, tanh^2(kL * integral of the apodisation {integrals}) = {[float(np.tanh(kL * v) ** 2) for v in integrals]} ({apo_name}, Bragg frequency {m_off} bins from the carrier)")
+        if apo_name == "uniform":
+            dl, kk = dref.astype(complex), kref.astype(complex)
             g = np.sqrt(kk ** 2 - dl ** 2)
             with np.errstate(all="ignore"):
                 ref_ = np.real(np.sinh(g) ** 2 / (np.cosh(g) ** 2 - dl ** 2 / kk ** 2))
-            ctx.check("fbg.uniform", np.max(np.abs(R2 - ref_)) <= ODE, f"uniform grating spectrum differs from sinh^2(g)/(cosh^2(g)-d^2/k^2) by {np.max(np.abs(R2 - ref_)):.3g} (kL={kL:.3g})")
+            ctx.check("fbg.uniform", np.max(np.abs(R2 - ref_)) <= ODE, f"uniform grating spectrum differs from sinh^2(g)/(cosh^2(g)-d^2/k^2) by {np.max(np.abs(R2 - ref_)):.3g} (kL={kL:.3g}, n_pol={n_pol}, Bragg offset {m_off} bins)")
+    # optional cross-check of what the solver was handed (only if the library still passes it through solve_ivp's args=)
+    if cap and "delta" in cap:
+        dgot = np.ravel(np.asarray(cap["delta"], float))
+        ctx.check("fbg.detuning", dgot.shape == dref.shape and np.max(np.abs(dgot - dref)) <= 1e-6 * max(np.max(np.abs(dref)), 1.0),
+                  f"detuning vector differs from 2 pi neff (f - f_Bragg) L / c (max dev {np.max(np.abs(dgot - dref)) if dgot.shape == dref.shape else 'shape'} of {np.max(np.abs(dref)):.3g}; Bragg frequency {m_off} bins from the carrier, n_pol={n_pol})")
+        if not chirped:
+            apo_f = cap.get("apo")
+            integral = 1.0 if apo_f is None else quad(lambda z: float(apo_f(z)), -0.5, 0.5, limit=200)[0]
+            if apo_name in NAMED_INTEGRALS:
+                ctx.check("fbg.named_profile", any(abs(integral - v) <= 1e-6 for v in NAMED_INTEGRALS[apo_name]),
+                          f"apodization='{apo_name}' integrated a profile whose integral is {integral:.6g}; the documented profile has {NAMED_INTEGRALS[apo_name]}")
+            k_bragg = float(np.ravel(cap["k"])[ic])
+            ctx.check("fbg.coupling", abs(k_bragg - kL) <= 1e-6 * kL and np.all(np.ravel(cap["s"]) == 0) and abs(float(np.ravel(cap["delta"])[ic])) <= 1e-6, f"solver inputs at the Bragg frequency: k={k_bragg!r} (kL={kL!r}), delta={float(np.ravel(cap['delta'])[ic])!r}")
+    else:
+        ctx.not_observed("fbg.detuning")
     ctx.case(("fbg", apo_name, round(kL), round(np.log10(vdneff)), chirped, n, n_pol, fs), sample=dict(fs=fs, n=n, n_pol=n_pol, kL=kL, vdneff=vdneff, F=F, apodisation=apo_name, peak_R=float(R2.max())) if i < 6 else None)
     ctx.bin("apodisation", apo_name.split(":")[0])
     ctx.bin("chirped", chirped)
@@ -241,9 +247,8 @@ def w_two_grids(ctx, rng, i):
             T.gv(sps=8, fs=fs, wavelength=wl)
         out, H, cap = run_fbg(x, fc=T.gv.f0, vdneff=vdneff, kL=kL, apodization=apo)
         R2 = np.abs(H) ** 2
-        apo_f = cap.get("apo")
-        integral = 1.0 if apo_f is None else quad(lambda z: float(apo_f(z)), -0.5, 0.5, limit=200)[0]
-        ctx.check("fbg.peak", abs(R2[n // 2] - np.tanh(kL * integral) ** 2) <= ODE, f"|H(f_Bragg)|^2 = {R2[n // 2]!r} vs tanh^2 = {np.tanh(kL * integral) ** 2!r} on grid fs={fs:.3g}, wavelength={wl:.4g} (sequence {[a, b, a]})")
+        ctx.check("fbg.peak", any(abs(R2[n // 2] - np.tanh(kL * v) ** 2) <= ODE for v in NAMED_INTEGRALS[apo]),
+                  f"|H(f_Bragg)|^2 = {R2[n // 2]!r} vs tanh^2(kL * {NAMED_INTEGRALS[apo]}) on grid fs={fs:.3g}, wavelength={wl:.4g} (sequence {[a, b, a]})")
         ctx.check("fbg.passive", np.abs(H).max() <= 1 + ODE, "|H| exceeds one after a grid change")
         Hs.append(H)
     ctx.check("grid.history", np.max(np.abs(Hs[0] - Hs[2])) <= 1e-12, "FBG response on the first grid differs after a visit to another grid")
